@@ -106,6 +106,12 @@ def table_failures(data, only=None):
                            fd.get("helper"), fd.get("shipped")))
                 case["first_difference"] = fd
                 out.append(("C20:method-differs:%s.%s" % (c["name"], m), what, case))
+            elif d["kind"] == "order":
+                case["expected_order"], case["shipped_order"] = d["expected_order"], d["shipped_order"]
+                out.append(("C20:method-order:%s" % c["name"],
+                            "%s: the user statements of nml.py are those of the matching specs but in another order (a later "
+                            "def of the same name wins); first out of place at %d: %s. METHOD_SPECS order gives %s, nml.py has %s"
+                            % (c["name"], d["index"], m, d["expected_order"], d["shipped_order"]), case))
             elif d["kind"] == "missing-in-bindings":
                 out.append(("C20:method-missing-in-bindings:%s.%s" % (c["name"], m),
                             "%s.%s is defined by a spec of %s naming %s but is not shipped in nml.py (position %d): `%s`"
@@ -118,6 +124,11 @@ def table_failures(data, only=None):
     if only:
         return out
     for sp in data["specs"]:
+        if sp["class_names"]["kind"] == "other":
+            out.append(("C20:spec-never-matches:%s" % sp["name"],
+                        "spec %s has class_names %s — neither a str nor a list, so MethodSpec.match_name never matches and its "
+                        "methods are inserted nowhere" % (sp["name"], sp["class_names"]["v"]),
+                        {"kind": "spec-target", "spec": sp["name"]}))
         for t in TR.named_classes(sp["class_names"]):
             if t not in classes:
                 out.append(("C20:spec-target-missing:%s->%s" % (sp["name"], t),
@@ -145,6 +156,17 @@ def table_failures(data, only=None):
         if x not in oth:
             out.append(("C20:enum-without-class:%s" % x, "enumerated simpleType %s has no Enum class" % x,
                         {"kind": "other-class", "simpleType": x}))
+    imp = data["imports"]
+    for x in imp["shipped"]:
+        if x not in imp["template"]:
+            out.append(("C20:import-only-in-bindings:%s" % x,
+                        "nml.py has the module-level `%s`, which neither generateDS nor %s provides: the next regeneration "
+                        "drops it (a helper using it then fails)" % (x, imp["template_file"]), {"kind": "import", "stmt": x}))
+    for x in imp["template"]:
+        if x not in imp["shipped"]:
+            out.append(("C20:import-only-in-template:%s" % x,
+                        "%s has `%s`, the shipped nml.py does not: a helper relying on it fails until the bindings are "
+                        "regenerated" % (imp["template_file"], x), {"kind": "import", "stmt": x}))
     v = data["versions"]
     hx = v["header_xsd"]
     checks = [
@@ -154,8 +176,11 @@ def table_failures(data, only=None):
          "regenerate-nml.sh would regenerate from %r, the shipped bindings were generated from %r"
          % (v["script_pre"] + v["script_version"] + v["script_post"], hx)),
         ("writer-vs-header", v["writer_pre"] + v["current"] + v["writer_post"] == hx,
-         "the writer's schemaLocation names %r, the bindings' header %r"
-         % (v["writer_pre"] + v["current"] + v["writer_post"], hx)),
+         ("the writer's schemaLocation template %r filled with current_neuroml_version names %r, the bindings' header %r"
+          % (v["writer_pre"] + "%s" + v["writer_post"], v["writer_pre"] + v["current"] + v["writer_post"], hx))
+         if (v["writer_pre"] or v["writer_post"]) else
+         "the writer's schemaLocation is not a `NeuroML_%%s.xsd %% neuroml.current_neuroml_version` template any more "
+         "(see gaps); the bindings' header names %r" % hx),
         ("header-cmd", v["header_cmd_xsd"] == hx, "nml.py header: argument %r vs command line %r" % (hx, v["header_cmd_xsd"])),
         ("current-vs-header", v["xsd_read"] == hx,
          "current_neuroml_version %r selects %r, the bindings' header names %r" % (v["current"], v["xsd_read"], hx)),
@@ -432,6 +457,9 @@ def scratch_tree(root, replaced):
     um = os.path.basename(_STATE["data"]["helper_file"]) if "data" in _STATE else "helper_methods.py"
     if "neuroml/nml/" + um not in rels:
         rels.append("neuroml/nml/" + um)
+    tf = _STATE["data"]["imports"]["template_file"] if "data" in _STATE else "gds_imports-template.py"
+    if tf and "neuroml/nml/" + tf not in rels:
+        rels.append("neuroml/nml/" + tf)
     for rel in rels:
         dst = os.path.join(root, rel)
         os.makedirs(os.path.dirname(dst), exist_ok=True)
@@ -463,7 +491,7 @@ def simple_statement_lines(fn, lines, off):
             if "#" in body or body.endswith(("\\", ":", ",")) or ";" in body or not ln.startswith(" "):
                 continue
             try:
-                ast.parse(body)
+                ast.parse(body.replace("PERCENTAGE", "%"))
             except SyntaxError:
                 continue
             out.append(n.lineno)
@@ -526,14 +554,17 @@ def nml_candidates():
 
 
 def helper_candidates(hm_name):
-    """[(spec index, method, FunctionDef parsed from the file text region, line offset)] for specs whose `source=` is a
-    plain literal and whose lines map 1:1 onto file lines"""
+    """[(class_names value, method, FunctionDef, (byte start, byte end) of the `source=` literal, its value)] for
+    specs whose `source=` is a plain string literal; a mutant re-writes that literal as repr(new value)"""
     key = "hm_cands"
     if key in _STATE:
         return _STATE[key]
     path = os.path.join(fw.REPO, "neuroml", "nml", hm_name)
-    text = open(path).read()
-    flines = text.split("\n")
+    raw = open(path, "rb").read()
+    text = raw.decode("utf-8")
+    starts = [0]
+    for ln in raw.split(b"\n"):
+        starts.append(starts[-1] + len(ln) + 1)
     tree = ast.parse(text)
     out = []
     for n in ast.walk(tree):
@@ -544,29 +575,21 @@ def helper_candidates(hm_name):
                 continue
             try:
                 cnv = ast.literal_eval(cn)
-            except Exception:  # noqa
-                continue
-            slines = src.value.split("\n")
-            # string line k <-> file line src.lineno + 1 + k when the literal opens with '''\ + newline
-            ok = all(src.lineno + k < len(flines) and flines[src.lineno + k] == sl for k, sl in enumerate(slines[:-1]))
-            if not ok:
-                continue
-            try:
                 body = TR.body_of_source(src.value.replace("PERCENTAGE", "%"))
             except Exception:  # noqa
                 continue
+            span = (starts[src.lineno - 1] + src.col_offset, starts[src.end_lineno - 1] + src.end_col_offset)
             for s in body:
                 if isinstance(s, ast.FunctionDef):
-                    # AST line L (1-based, +2 for the class header) -> file line index src.lineno + (L - 3)
-                    out.append((cnv, s.name, s, src.lineno - 3))
-    _STATE[key] = (text, out)
+                    out.append((cnv, s.name, s, span, src.value))
+    _STATE[key] = (raw, out)
     return _STATE[key]
 
 
 def selftest(ctx, data, n_mut, n_keep):
     hm_rel = "neuroml/nml/" + data["helper_file"]
     nml_text, ncs = nml_candidates()
-    hm_text, hcs = helper_candidates(data["helper_file"])
+    hm_raw, hcs = helper_candidates(data["helper_file"])
     cache = _STATE.setdefault("cache", {})
     root = tempfile.mkdtemp(prefix="verif_c20_")
     # differences already present in the tree under test are not the mutant's
@@ -577,13 +600,14 @@ def selftest(ctx, data, n_mut, n_keep):
             side = "nml" if (i % 2 == 0) else "helper"
             if side == "nml":
                 cls, meth, fn = ctx.rng.choice(ncs)
-                off, text, rel = -1, nml_text, "neuroml/nml/nml.py"
+                off, rel = -1, "neuroml/nml/nml.py"
+                lines = nml_text.split("\n")
                 targets = [cls]
             else:
-                cnv, meth, fn, off = ctx.rng.choice(hcs)
-                text, rel = hm_text, hm_rel
+                cnv, meth, fn, span, value = ctx.rng.choice(hcs)
+                off, rel = -3, hm_rel                      # AST line L of "class _:\n pass\n"+source = value line L-3
+                lines = value.split("\n")
                 targets = [cnv] if isinstance(cnv, str) else (list(cnv) if isinstance(cnv, list) else [])
-            lines = text.split("\n")
             if mode == "mutate" or ctx.rng.random() < 0.6:
                 cand = simple_statement_lines(fn, lines, off)
                 if not cand:
@@ -598,9 +622,13 @@ def selftest(ctx, data, n_mut, n_keep):
                 new, op = lines[ln + off] + " (c20 docstring edit)", "docstring"
             lines2 = list(lines)
             lines2[ln + off] = new
+            if side == "nml":
+                new_text = "\n".join(lines2)
+            else:
+                new_text = (hm_raw[:span[0]] + repr("\n".join(lines2)).encode("utf-8") + hm_raw[span[1]:]).decode("utf-8")
             before = set(cache)
             try:
-                scratch_tree(root, {rel: "\n".join(lines2)})
+                scratch_tree(root, {rel: new_text})
                 d2 = TR.extract(root, cache)
                 fails = table_failures(d2)
             except SyntaxError:
@@ -667,7 +695,14 @@ def run(ctx):
         ctx.seen(["type", x], nontrivial=True)
         ctx.count("type-pair")
     fails = table_failures(data)
+    import neuroml
+    try:
+        wf = writer_schema_file(neuroml)
+    except Exception as e:  # noqa
+        wf = "<writer failed: %r>" % (e,)
     for k, what, case in fails:
+        if k == "C20:version:writer-vs-header":
+            what += "; the real NeuroMLWriter emits %r" % wf
         ctx.fail(k, what, case)
     named = {(f[2].get("class"), f[2].get("method")) for f in fails if f[2].get("kind") == "method"}
     for c in data["binding"]:
@@ -680,7 +715,6 @@ def run(ctx):
                            "specs": len(data["specs"]), "binding_classes": len(classes)}
 
     # ---- 2. the imported library, by independent routes
-    import neuroml
     import neuroml.nml.nml as nml_mod
     if not os.path.abspath(nml_mod.__file__).startswith(os.path.abspath(fw.REPO) + os.sep):
         ctx.notes.append("neuroml imported from %s, not from %s" % (nml_mod.__file__, fw.REPO))
@@ -719,7 +753,7 @@ def run(ctx):
             k = "C20:class-without-complextype:%s" % x if x in rt else "C20:complextype-without-class:%s" % x
             if not any(f[0] == k for f in fails):
                 ctx.disagree("oracle-vs-translator", {"type": x}, "run-time/lxml differ", "table equal")
-    wf, hx = writer_schema_file(neuroml), header_xsd_independent()
+    hx = header_xsd_independent()
     ctx.count("oracle:writer")
     if wf != hx and not any(f[0] == "C20:version:writer-vs-header" for f in fails):
         ctx.fail("C20:version:writer-vs-header",
@@ -751,7 +785,7 @@ def run(ctx):
     run_table_stream(ctx, hm_mod, data)
 
     # ---- 4. translator validation on scratch mutants
-    selftest(ctx, data, ctx.n(8, 60), ctx.n(6, 40))
+    selftest(ctx, data, ctx.n(8, 120), ctx.n(6, 60))
 
 
 def replay(ctx, payload):
